@@ -14,7 +14,7 @@ RULE = ("chains with every script type, non-monotonic timestamps (gaps clamped t
         "heights 210000*k), timestamp gaps whose sum exceeds 2^32, segwit txs (witness-stripped size), x 8 coins x ranges, on debug and "
         "release builds: the real simplestats report is parsed (type table as a set) and every figure compared with exact rational "
         "recomputation rendered at the printed precision. Plus utils::get_mean on random u32 multisets (incl. sums > 2^32) through the "
-        "guarded mean tool mode. distinct = (chain kind, coin, build, range kind) signatures + multiset classes")
+        "guarded mean tool mode. One long run (more than 2^16 blocks in one process, three blk files) is compared with the model as well: thresholds of anything a run accumulates. distinct = (chain kind, coin, build, range kind) signatures + multiset classes")
 
 
 def typed_out(rng, cb, coin):
